@@ -145,7 +145,7 @@ class Executor:
             for j in jobs:
                 f.write(json.dumps(j, ensure_ascii=False) + "\n")
         env = dict(os.environ, RUST_BACKTRACE="0")
-        if self.count_alloc:
+        if self.count_alloc or any(j.get("mode") == "lifecycle" for j in jobs):
             env["VERIF_COUNT_ALLOC"] = "1"
         binary = BIN
         if self.asan:
